@@ -55,6 +55,13 @@ CHECKS = {
                 "the call's bytes with a random-token marker; TLC evaluates WireOK (verdict) and the exact encoding (drift only) on every record.",
         "note": MC_NOTE,
     },
+    "C09": {
+        "engine": "Conn.tla", "level": "model_checking", "design_ref": "7 (C09)",
+        "technique": "TLC exhaustive on the out-queue configs of Conn.tla (senders x pacing: WireOrdered, AllWritten); wire transcripts of 1-64 concurrent real senders (user goroutines and handlers) under fast/slow/bursty/stalled servers validated by TLC against the same predicates (OutTrace.tla)",
+        "text": "Conn.tla's out configs prove, for all interleavings of 2 senders x 2-3 lines through a queue of capacity 1-2 and one send goroutine, that each sender's lines reach the "
+                "wire in issue order and, at quiescence with the connection up, exactly once. The recorded sessions restate the same predicates over what the fake server received.",
+        "note": MC_NOTE + " Flood control off; lines free of CR/LF.",
+    },
     "C10": {
         "engine": "Flood.tla", "level": "model_checking", "design_ref": "7 (C10)",
         "technique": "TLA+ penalty rule over integer ticks; TLC proves non-negativity, boundedness, held-iff-over and the window bound for all short histories; closure of penalty values with every edge replayed on the real rateLimit; timed end-to-end sessions validated by TLC",
